@@ -6,7 +6,7 @@ TIER=${1:-quick}; shift
 V=${MATRIX_VERIF:-/root/matrix/verif}; R=${MATRIX_REPO:-/root/matrix/repo}
 if [ ! -d $V ]; then mkdir -p $(dirname $V); git -C /verif worktree add -q --detach $V HEAD || exit 2; fi
 if [ ! -d $R ]; then git clone -q /repo $R || exit 2; fi
-git -C $V checkout -q --detach $(git -C /verif rev-parse HEAD); git -C $R fetch -q origin; git -C $R checkout -q --detach $(git -C /repo rev-parse HEAD); git -C $R checkout -- .
+git -C $V checkout -q -f --detach $(git -C /verif rev-parse HEAD); git -C $R fetch -q origin; git -C $R checkout -q --detach $(git -C /repo rev-parse HEAD); git -C $R checkout -- .
 IDS=${@:-$(ls /verif/seeded | grep -v MATRIX)}
 OUT=/verif/seeded/MATRIX.$TIER.tsv
 for id in $IDS; do
